@@ -1,11 +1,13 @@
 package main
 
 import (
+	"context"
 	"fmt"
 	"sort"
 	"strings"
 
 	"github.com/hashicorp/hcl/v2"
+	"github.com/hashicorp/hcl/v2/hclsyntax"
 )
 
 func init() { props["C01"] = runC01; props["C02"] = runC02 }
@@ -21,6 +23,7 @@ func omniFor(run *Run) Omni {
 func runC01(run *Run, replay string) {
 	run.Res.Rule = "generated schema (all constraint kinds, block types, address forms, extensions; every 5th degenerate-but-valid) x schema-directed configuration (every 3rd with injected violations) x typing history (prefixes, single-token deletions/duplications/replacements) x cursor offsets (token boundaries +-1 and a sample; all offsets in thorough) x every public query under recover() and a 20 s deadline; distinct non-trivial = distinct (file text, query, offset) whose call returned a non-empty result"
 	o := omniFor(run)
+	o.OnScenario = modelCasesHook(run)
 	omnibus(run, o, func(s *Scenario, p *PathData, q Query, res QResult, loc map[string]interface{}) {
 		run.Res.Evaluations++
 		run.Count("query_" + q.Name)
@@ -53,6 +56,7 @@ func runC01(run *Run, replay string) {
 func runC02(run *Run, replay string) {
 	run.Res.Rule = "same scenarios as C01; every range-typed field of every returned value is checked against the file content with HCL's own scanner: file of the reported path, 0<=start<=end<=len, line/column = scanner position of the byte offset; distinct non-trivial = distinct (file text, query, offset) returning at least one range"
 	o := omniFor(run)
+	o.OnScenario = modelCasesHook(run)
 	nranges := 0
 	omnibus(run, o, func(s *Scenario, p *PathData, q Query, res QResult, loc map[string]interface{}) {
 		run.Res.Evaluations++
@@ -124,7 +128,7 @@ func badRange(w *World, rr RRange) string {
 	if r.Start.Byte > r.End.Byte {
 		return "start-after-end: start byte after end byte"
 	}
-	tbl := lcTable(src)
+	tbl := lcTableCached(src)
 	for _, p := range []struct {
 		n string
 		b, l, c int
@@ -159,4 +163,46 @@ func parserRangesCached(s *Scenario, path string) map[hcl.Range]bool {
 		}
 	}
 	return map[hcl.Range]bool{}
+}
+
+// modelCasesHook: the modelled queries of each scenario as correspondence cases (the model must
+// predict the same result - in particular no panic - and the same ranges).
+func modelCasesHook(run *Run) func(s *Scenario, loc map[string]interface{}, coll []CollectRes) {
+	n := 0
+	return func(s *Scenario, loc map[string]interface{}, coll []CollectRes) {
+		limit := 150
+		if run.Thorough {
+			limit = 3000
+		}
+		if n >= limit {
+			return
+		}
+		f := s.Main.Ctx.Files[s.File]
+		body, ok := f.Body.(*hclsyntax.Body)
+		if !ok {
+			return
+		}
+		d, _ := s.W.Dec.Path(s.Main.Path)
+		res := safeCall("ValidateFile", func() (interface{}, error) { return d.ValidateFile(context.Background(), s.File) })
+		if res.Panic == "" && res.Err == nil {
+			n++
+			run.Case("validate", []S{bodySchemaS(s.Main.Schema), bodyS(body)}, diagsCanonical(res.Val.(hcl.Diagnostics)))
+		}
+		n += mergeCases(run, s, 4)
+	}
+}
+
+var lcTblCache = map[string]map[int]hcl.Pos{}
+
+func lcTableCached(src []byte) map[int]hcl.Pos {
+	k := string(src)
+	if t, ok := lcTblCache[k]; ok {
+		return t
+	}
+	if len(lcTblCache) > 64 {
+		lcTblCache = map[string]map[int]hcl.Pos{}
+	}
+	t := lcTable(src)
+	lcTblCache[k] = t
+	return t
 }
